@@ -7,7 +7,7 @@ out, name, ids = sys.argv[1], sys.argv[2], sys.argv[3:]
 V = os.path.dirname(os.path.dirname(os.path.abspath(__file__)))
 env = dict(os.environ, GOFLAGS="-mod=mod", GOPROXY="off", GOSUMDB="off", GOTOOLCHAIN="local")
 def sh(cmd, cwd=None):
-    r = subprocess.run(cmd, shell=True, cwd=cwd, env=env, stdout=subprocess.PIPE, stderr=subprocess.STDOUT, text=True)
+    r = subprocess.run(cmd, shell=True, cwd=cwd, env=env, stdout=subprocess.PIPE, stderr=subprocess.STDOUT, text=True, errors="replace")
     return r.returncode, r.stdout
 meta = json.load(open(os.path.join(out, "meta.json")))
 demo_dir = (meta.get("demo_dir", ".").split() or ["."])[0].strip("/").rstrip(",;") or "."
@@ -20,7 +20,8 @@ res = {}
 try:
     demo_dst = os.path.join(wt, demo_dir, "zz_seeded_demo_test.go")
     shutil.copy(os.path.join(out, "demo_test.go"), demo_dst)
-    rc, o = sh("go test -vet=off -count=1 ./%s" % demo_dir, wt)
+    race = "-race " if meta.get("needs_race_detector") else ""
+    rc, o = sh("go test %s-vet=off -count=1 ./%s" % (race, demo_dir), wt)
     res["demo_passes_without_change"] = (rc == 0)
     os.remove(demo_dst)
     rc, o = sh("git apply %s" % os.path.join(os.path.abspath(out), "patch.diff"), wt)
@@ -37,7 +38,7 @@ try:
     rc, o = sh("go test -vet=off -count=1 ./...", wt)
     res["existing_tests_pass_with_change"] = (rc == 0)
     shutil.copy(os.path.join(out, "demo_test.go"), demo_dst)
-    rc, o = sh("go test -vet=off -count=1 ./%s" % demo_dir, wt)
+    rc, o = sh("go test %s-vet=off -count=1 ./%s" % (race, demo_dir), wt)
     res["demo_fails_with_change"] = (rc != 0)
     os.remove(demo_dst)
     caught = {}
